@@ -259,6 +259,10 @@ SLICE = {
 }
 
 
+def driver_check(driver, cfg, ptoks, ttoks, pid):
+    return driver.call({"cmd": "check", "desc": cfg, "pkg": ptoks, "top": ttoks, "props": [pid], "model": False})
+
+
 TEXT_PROPS = {"C05", "C06", "C08", "C11", "C12", "C13"}
 
 
@@ -460,6 +464,25 @@ class NetRunner:
                 for cls, site, bad in irng.sample(variants, min(CONFIG[pid]["inject"], len(variants))):
                     stats["injected-variants"] += 1
                     handle(f"{name}+{cls}@{site}", {"family": meta.get("family", "?"), "injected": cls}, bad)
+            if pid in ("C05", "C06") and stats["visualize-runs"] < 2 and "injected" not in meta:
+                # the command line with its picture option: drawing the network must not change what is generated
+                import cliprops
+                stats["visualize-runs"] += 1
+                rc = cliprops.run_cli(cfg, extra_args=("--visualize",))
+                tops = [v for k2, v in rc["files"].items() if not k2.endswith("_pkg.sv")]
+                pkgs = [v for k2, v in rc["files"].items() if k2.endswith("_pkg.sv")]
+                if rc["rc"] == 0 and tops and pkgs:
+                    try:
+                        pt, _ = svtok.tokenize(pkgs[0])
+                        tt, _ = svtok.tokenize(tops[0])
+                        rv = driver_check(drv, cfg, pt, tt, pid)
+                    except svtok.TokError as e:
+                        rv = {"error": str(e)}
+                    vf = rv.get("findings", {}).get(pid, []) if "error" not in rv else \
+                        [{"claim": "unreadable-with-visualize", "site": name, "detail": rv["error"][:200]}]
+                    if isinstance(vf, list):
+                        fs = list(fs) + [dict(x, site=x["site"] + " (generated with --visualize)") for x in vf]
+                        res["holds"] = {}
             if len(samples) < 3 and not fs:
                 samples.append({"case": name, "endpoints": [e["name"] + str(e.get("array", "")) for e in cfg["endpoints"]],
                                 "routers": cfg["routers"], "algo": cfg["routing"]["route_algo"],
@@ -587,6 +610,23 @@ class NetRunner:
                 print(f"floogen {payload['cli_flag']}: exit status {rc['rc']}, files {sorted(rc['files'])}")
                 accepted = accepted or rc["rc"] == 0 or bool(rc["files"])
             if accepted:
+                rep.finding(payload["finding"], payload)
+            return rep.exit_code()
+        if "(generated with --visualize)" in (payload.get("finding") or {}).get("site", ""):
+            import cliprops
+            rc = cliprops.run_cli(cfg, extra_args=("--visualize",))
+            tops = [v for k2, v in rc["files"].items() if not k2.endswith("_pkg.sv")]
+            pkgs = [v for k2, v in rc["files"].items() if k2.endswith("_pkg.sv")]
+            fsv = []
+            if rc["rc"] == 0 and tops and pkgs:
+                try:
+                    rv = driver_check(drv, cfg, svtok.tokenize(pkgs[0])[0], svtok.tokenize(tops[0])[0], pid)
+                    fsv = rv.get("findings", {}).get(pid, []) if "error" not in rv else [{"claim": "unreadable", "site": "", "detail": rv["error"]}]
+                except svtok.TokError as e:
+                    fsv = [{"claim": "unreadable", "site": "", "detail": str(e)}]
+            drv.close()
+            print(f"floogen --visualize: exit status {rc['rc']}; findings on its output: {json.dumps(fsv[:3])[:600]}")
+            if fsv:
                 rep.finding(payload["finding"], payload)
             return rep.exit_code()
         res = run_case(drv, cfg, [pid])
